@@ -11,9 +11,12 @@ import (
 	"os"
 	"sort"
 	"strings"
+	"time"
 
 	"verif/harness/vx"
 )
+
+const lockWatchdog = 20 * time.Second
 
 type gen struct {
 	r  *vx.Rng
@@ -122,19 +125,36 @@ func main() {
 			Type:   "case",
 			Footer: "Definition M := Eval vm_compute in mismatches cases.\nPrint M.\n",
 		}}
-		dvDirected(g)
-		snDirected(g)
-		ctDirected(g)
-		ssDirected(g)
-		evDirected(g)
-		wgDirected(g)
-		for i := 0; i < *n; i++ {
-			dvRandom(g, 3+g.r.Intn(*maxLen))
-			snRandom(g, 3+g.r.Intn(*maxLen))
-			ctRandom(g, 3+g.r.Intn(*maxLen))
-			ssRandom(g, 3+g.r.Intn(*maxLen))
-			evRandom(g, 3+g.r.Intn(*maxLen))
-			wgRandom(g, 3+g.r.Intn(*maxLen))
+		// every history runs under a watchdog: a call that never returns is an outcome, not a stuck harness
+		guard := func(kind string, f func()) bool {
+			if within(lockWatchdog, f) {
+				return true
+			}
+			st.Fail(map[string]any{"sig": "", "kind": "lockstep-hang", "what": kind + ": a sequential history did not return (the last case in case_index of this kind was never completed)", "case": len(st.CaseIndex)})
+			return false
+		}
+		ok := guard("directed", func() {
+			dvDirected(g)
+			snDirected(g)
+			ctDirected(g)
+			ssDirected(g)
+			evDirected(g)
+			wgDirected(g)
+		})
+		for i := 0; ok && i < *n; i++ {
+			ok = guard("dv", func() { dvRandom(g, 3+g.r.Intn(*maxLen)) }) &&
+				guard("sn", func() { snRandom(g, 3+g.r.Intn(*maxLen)) }) &&
+				guard("ct", func() { ctRandom(g, 3+g.r.Intn(*maxLen)) }) &&
+				guard("ss", func() { ssRandom(g, 3+g.r.Intn(*maxLen)) }) &&
+				guard("ev", func() { evRandom(g, 3+g.r.Intn(*maxLen)) }) &&
+				guard("wg", func() { wgRandom(g, 3+g.r.Intn(*maxLen)) })
+		}
+		if !ok {
+			// the hung goroutine may still own the generator state: report without a cases file
+			if err := st.Write(*stats); err != nil {
+				vx.Die("%v", err)
+			}
+			os.Exit(0)
 		}
 		if err := g.cf.Write(*out); err != nil {
 			vx.Die("%v", err)
@@ -148,6 +168,18 @@ func main() {
 		if err := st.Write(*stats); err != nil {
 			vx.Die("%v", err)
 		}
+	case "probe":
+		e, l := wgDupRace(*n)
+		println("wgDupRace: empty", e, "lost", l)
+		f, p, t := wgDupDirected(2 * time.Second)
+		println("wgDupDirected: finished", f, "pending", p, "triggered", t)
+		hang := 0
+		for i := 0; i < *runs; i++ {
+			if !ssDeadlockSchedule(2 * time.Second) {
+				hang++
+			}
+		}
+		println("ssDeadlock: hangs", hang, "of", *runs)
 	default:
 		vx.Die("unknown subcommand %s", os.Args[1])
 	}
